@@ -13,7 +13,21 @@ type Server struct {
 }
 
 func NewServer(s *openapi3.Server) (zero Server, _ error) {
+	if s == nil {
+		return zero, fmt.Errorf("server is empty (null)")
+	}
 	variables, err := NewMap[ServerVariable, *openapi3.ServerVariable](s.Variables, func(sv *openapi3.ServerVariable) (ServerVariable, error) {
+		if sv == nil {
+			return ServerVariable{}, fmt.Errorf("server variable is empty (null)")
+		}
+		if _, ok := sv.Default.(string); !ok {
+			return ServerVariable{}, fmt.Errorf("server variable default: expected a string, found %T", sv.Default)
+		}
+		for _, e := range sv.Enum {
+			if _, ok := e.(string); !ok {
+				return ServerVariable{}, fmt.Errorf("server variable enum: expected strings, found %T", e)
+			}
+		}
 		return NewServerVariable(sv), nil
 	})
 	if err != nil {
